@@ -214,6 +214,12 @@ def run(ctx):
     ctx.proof_gate()
     rng, nrng = ctx.rng, ctx.np_rng()
     cases = [gen_case(rng, nrng) for _ in range(ctx.n(120, 2500))]
+    # EVERY run: integer-typed observations whose powers leave the integer type (millimetres as int32 under cubic weights: 1291**3 > 2**31;
+    # int32 beyond 46340 under quadratic weights; int64 beyond 2.1e6 under cubic weights), as arrays and as lists of ints
+    base_ = sts.weibull_min.rvs(1.6, scale=3.0, size=60, random_state=12345)
+    for unit_, dt_, wk_ in ((1000, "int32", "cubic"), (20000, "int32", "quadratic"), (1000000, "int64", "cubic"), (1000, "list", "cubic"), (1000, "int32", "linear")):
+        for dl_ in (1.0, 2.35):
+            cases.insert(0, {"x": [float(v) for v in np.round(base_ * unit_)], "weights": wk_, "method": "wlsq", "delta": dl_, "dtype": dt_})
     # ---- correspondence: the closed-form estimate on the arrays the real code builds
     captured = []
     orig = EW._estimate_alpha_beta
@@ -275,7 +281,7 @@ def run(ctx):
     ctx.notes["input_distribution"] = dist
     # ---- search
     found = 0
-    for c in suspects[:10] + cases[: ctx.n(80, 1500)]:
+    for c in suspects[:10] + cases[: ctx.n(90, 1510)]:
         try:
             o = oracle(c)
         except Exception as e:  # noqa
